@@ -10,7 +10,6 @@ import concurrent.futures as cf
 import json
 import os
 import re
-import resource
 import shutil
 import signal
 import subprocess
@@ -200,22 +199,16 @@ def kill_children():
             pass
 
 
-def _limits(mem_gb):
-    def f():
-        os.setsid()
-        if mem_gb:
-            b = int(mem_gb * (1 << 30))
-            resource.setrlimit(resource.RLIMIT_AS, (b, b))
-    return f
-
-
 def run_cmd(cmd, cwd, timeout, mem_gb=None, logfile=None, env=None):
-    """Run a command in its own process group under a wall-clock cap and an
-    address-space cap. Returns (rc or None on timeout, output, seconds)."""
+    """Run a command in its own session (process group) under a wall-clock cap and an
+    address-space cap (`ulimit -v` in a wrapper shell: no preexec_fn, which is not safe in a
+    multi-threaded parent). Returns (rc or None on timeout, output, seconds)."""
     t0 = time.time()
     out = open(logfile, "w") if logfile else subprocess.PIPE
+    if mem_gb:
+        cmd = ["bash", "-c", "ulimit -v %d; exec \"$@\"" % int(mem_gb * 1024 * 1024), "bash"] + list(cmd)
     p = subprocess.Popen(cmd, cwd=cwd, stdout=out, stderr=subprocess.STDOUT, text=True,
-                         env=env or ENV, preexec_fn=_limits(mem_gb))
+                         env=env or ENV, start_new_session=True)
     _children.add(p)
     try:
         o, _ = p.communicate(timeout=timeout)
